@@ -424,4 +424,8 @@ def noncanonical_variants(rng, doc):
             out.append((doc[:a] + b"-0" + doc[b:], "noncanonical: minus zero"))
         out.append((doc[:a] + b"+" + body + doc[b:], "noncanonical: plus sign"))
     out.append((doc + rng.choice([b"e", b"0:", b"\n", b" "]), "noncanonical: trailing bytes"))
+    # white space around the document is not part of bencode (a tolerant front end must not shift the info span)
+    ws = rng.choice([b"\n", b" ", b"\r\n", b"\t", b"\x0c", b"  \n"])
+    out.append((ws + doc, "noncanonical: leading white space"))
+    out.append((ws + doc + ws, "noncanonical: white space around"))
     return out
